@@ -28,6 +28,9 @@ pub fn exec_oracle(kind: &str, fields: &[&str]) -> String {
         "S_C08N" => oracle_c08n(fields),
         "S_C08O" => oracle_c08o(fields),
         "S_C08D" => oracle_c08d(fields),
+        "S_C15" => oracle_c15(fields[0], &crate::exec::unhex(fields[1]), fields[2]),
+        "S_C15F" => oracle_c15f(fields),
+        "S_C15A" => oracle_c15a(fields),
         "S_C11A" => oracle_c11_adapt(fields),
         "S_C11ACC" => oracle_c11_accept(fields),
         "S_C11X" => oracle_c11_axisswap(fields),
@@ -1870,6 +1873,176 @@ fn oracle_c08d(fields: &[&str]) -> String {
                 }
             }
         }
+    }
+    "oracle pass".to_string()
+}
+
+/// decoding a (damaged) grid file and using what comes out: no panic (the worker catches it), no
+/// hang (the supervisor times it), allocation in proportion to the file, safe queries
+fn oracle_c15(fmt: &str, bytes: &[u8], points: &str) -> String {
+    let before = crate::alloc_count::mark();
+    let decoded: Result<std::sync::Arc<dyn Grid>, Error> = if fmt == "ntv2" {
+        Ntv2Grid::new(bytes).map(|g| std::sync::Arc::new(g) as std::sync::Arc<dyn Grid>)
+    } else {
+        BaseGrid::gravsoft(bytes).map(|g| std::sync::Arc::new(g) as std::sync::Arc<dyn Grid>)
+    };
+    let used = crate::alloc_count::peak().saturating_sub(before);
+    let allowed = 64 * bytes.len() + (1 << 20);
+    if used > allowed {
+        return format!("oracle FAIL decoding a file of {} bytes allocated {} bytes", bytes.len(), used);
+    }
+    let Ok(g) = decoded else {
+        return "oracle pass rejected".to_string();
+    };
+    let bands = g.bands();
+    if bands == 0 || bands > 3 {
+        return format!("oracle FAIL decoded grid reports {bands} bands");
+    }
+    let mut pts = crate::exec::parse_points(points);
+    for v in [f64::NAN, f64::INFINITY, f64::NEG_INFINITY, 1e300, -1e300, 0.0, f64::MIN_POSITIVE] {
+        pts.push(Coor4D([v, 1.0, 0.0, 0.0]));
+        pts.push(Coor4D([0.2, v, 0.0, 0.0]));
+        pts.push(Coor4D([v, v, 0.0, 0.0]));
+    }
+    for p in &pts {
+        for margin in [0.0, 0.5, 3.0, 1e9, f64::INFINITY] {
+            let _ = g.at(p, margin);
+        }
+    }
+    // ... and through the operators
+    let mut ctx = crate::exec::GridCtx::new();
+    ctx.grids.insert("damaged.grid".to_string(), g.clone());
+    let defs: &[&str] = match bands {
+        1 => &["gridshift grids=damaged.grid", "deflection grids=damaged.grid", "gridshift grids=damaged.grid,@null"],
+        2 => &["gridshift grids=damaged.grid", "gridshift grids=damaged.grid,@null"],
+        _ => &["deformation dt=1 grids=damaged.grid", "deformation raw dt=1 grids=damaged.grid,@null"],
+    };
+    for def in defs {
+        let Ok(op) = ctx.op(def) else {
+            return format!("oracle FAIL {def} not instantiable over a decoded grid");
+        };
+        for dir in [Fwd, Inv] {
+            let mut data: Vec<Coor4D> = pts.iter().map(|p| if bands == 3 { Ellipsoid::default().cartesian(&Coor4D([p[0], p[1], 0., 0.])) } else { *p }).collect();
+            let n = data.len();
+            match ctx.apply(op, dir, &mut data) {
+                Ok(k) if k > n => return format!("oracle FAIL {def}: {k} successes for {n} tuples"),
+                _ => {}
+            }
+            if data.len() != n {
+                return format!("oracle FAIL {def}: operand set changed length");
+            }
+        }
+    }
+    "oracle pass decoded".to_string()
+}
+
+/// the larger shipped files, damaged by the harness
+fn oracle_c15f(fields: &[&str]) -> String {
+    let Ok(mut bytes) = std::fs::read(fields[0]) else {
+        return "oracle FAIL shipped grid file not readable".to_string();
+    };
+    let spec = fields[1];
+    if let Some(n) = spec.strip_prefix("trunc:") {
+        bytes.truncate(n.parse().unwrap_or(0));
+    } else if let Some(n) = spec.strip_prefix("flip:") {
+        let bit: usize = n.parse().unwrap_or(0);
+        if bit / 8 < bytes.len() {
+            bytes[bit / 8] ^= 1 << (bit % 8);
+        }
+    }
+    let fmt = if fields[0].ends_with(".gsb") { "ntv2" } else { "gravsoftb" };
+    let u = std::f64::consts::PI / 180.0;
+    let pts = format!("{},{};{},{}", fbits(12.0 * u), fbits(56.0 * u), fbits(2.0 * u), fbits(41.5 * u));
+    let r = oracle_c15(fmt, &bytes, &pts);
+    if spec == "id" && r != "oracle pass decoded" {
+        return format!("oracle FAIL intact shipped file {}: {r}", fields[0]);
+    }
+    r
+}
+
+/// the ASCII rendering (.gsa) of a shipped NTv2 file against the decoded binary (.gsb): header
+/// geometry and every node value of every sub-grid
+fn oracle_c15a(fields: &[&str]) -> String {
+    let name = fields[0];
+    let Ok(text) = std::fs::read_to_string(format!("geodesy/gsb/{name}.gsa")) else {
+        return "oracle FAIL .gsa twin not readable".to_string();
+    };
+    let Ok(bytes) = std::fs::read(format!("geodesy/gsb/{name}.gsb")) else {
+        return "oracle FAIL .gsb not readable".to_string();
+    };
+    let g = match Ntv2Grid::new(&bytes) {
+        Ok(g) => g,
+        Err(e) => return format!("oracle FAIL shipped .gsb rejected ({})", err_class(&e)),
+    };
+    // parse the ASCII rendering
+    struct A {
+        name: String,
+        parent: String,
+        h: BTreeMap<String, f64>,
+        nodes: Vec<(f64, f64)>,
+    }
+    let mut subs: Vec<A> = vec![];
+    for line in text.lines() {
+        let w: Vec<&str> = line.split_whitespace().collect();
+        if w.is_empty() {
+            continue;
+        }
+        if w[0] == "SUB_NAME" {
+            subs.push(A { name: w[1].to_string(), parent: String::new(), h: BTreeMap::new(), nodes: vec![] });
+            continue;
+        }
+        let Some(cur) = subs.last_mut() else { continue };
+        if w[0] == "PARENT" && w.len() == 2 {
+            cur.parent = w[1].to_string();
+            continue;
+        }
+        if w.len() == 2 {
+            if let Ok(v) = w[1].parse::<f64>() {
+                cur.h.insert(w[0].to_string(), v);
+            }
+        } else if w.len() == 4 {
+            cur.nodes.push((w[0].parse().unwrap_or(f64::NAN), w[1].parse().unwrap_or(f64::NAN)));
+        }
+    }
+    if subs.is_empty() {
+        return "oracle FAIL no sub-grids in the .gsa twin".to_string();
+    }
+    let sec = std::f64::consts::PI / 180.0 / 3600.0;
+    let boxes: Vec<(String, f64, f64, f64, f64)> = subs.iter().map(|a| (a.name.clone(), a.h["S_LAT"], a.h["N_LAT"], a.h["E_LONG"], a.h["W_LONG"])).collect();
+    let mut checked = 0;
+    for a in &subs {
+        let (s_lat, e_long, dlat, dlon) = (a.h["S_LAT"], a.h["E_LONG"], a.h["LAT_INC"], a.h["LONG_INC"]);
+        let cols = ((a.h["W_LONG"] - e_long) / dlon).round() as usize + 1;
+        let rows = ((a.h["N_LAT"] - s_lat) / dlat).round() as usize + 1;
+        if rows * cols != a.nodes.len() || a.h["GS_COUNT"] as usize != a.nodes.len() {
+            return format!("oracle FAIL .gsa twin of {} inconsistent", a.name);
+        }
+        for (k, (dlat_sec, dlon_sec)) in a.nodes.iter().enumerate() {
+            let (i, j) = (k / cols, k % cols);
+            let lat = s_lat + i as f64 * dlat;
+            let lonw = e_long + j as f64 * dlon;
+            // this sub-grid governs the node unless another sub-grid touches it, or the node sits on
+            // this sub-grid's own upper borders (which belong to the parent)
+            let other = boxes.iter().any(|b| b.0 != a.name && lat >= b.1 && lat <= b.2 && lonw >= b.3 && lonw <= b.4);
+            let is_child = a.parent != "NONE";
+            let upper = (lat - a.h["N_LAT"]).abs() < 1e-9 || (lonw - e_long).abs() < 1e-9;
+            if (other && !is_child) || (is_child && upper) {
+                continue;
+            }
+            let Some(v) = g.at(&Coor4D([-lonw * sec, lat * sec, 0., 0.]), 1e-9) else {
+                return format!("oracle FAIL node {k} of {} in the .gsa twin is outside the decoded .gsb", a.name);
+            };
+            let want = [-(dlon_sec * sec), dlat_sec * sec];
+            for b in 0..2 {
+                if (v[b] - want[b]).abs() > 1e-6 * want[b].abs() + 1e-12 {
+                    return format!("oracle FAIL node {k} of sub-grid {}: band {b} decodes to {} but the ASCII twin says {}", a.name, v[b], want[b]);
+                }
+            }
+            checked += 1;
+        }
+    }
+    if checked < 20 {
+        return format!("oracle FAIL only {checked} nodes of the .gsa twin could be compared");
     }
     "oracle pass".to_string()
 }
